@@ -1,3 +1,5 @@
 From Coq Require Import ExtrOcamlBasic.
-From ChibiV Require Import Common.ExtractBase C04.Model C04.Spec.
-Extraction "model.ml" ext_base compare_abs add_digits sub_digits bignum_add bignum_sub spec1 spec2.
+From ChibiV Require Import Common.ExtractBase C04.Model C04.Model2 C04.Spec.
+Extraction "model.ml" ext_base compare_abs add_digits sub_digits bignum_add bignum_sub
+  fxadd fxsub fxmul fxdiv fxrem normalize num_add num_sub num_mul vm_add vm_sub bignum_mul quot_rem
+  spec1 spec2.
